@@ -43,11 +43,70 @@ func (ex *Exec) buildQuery(o *Obligation, modelTerms []*smt.Term) string {
 
 // buildQueryOpt: with linearize set, products of two non-constant terms are replaced by an
 // uninterpreted function (a sound over-approximation that keeps the solvers in linear arithmetic).
+// buildSliced renders a weaker query: the path condition is dropped and only the assumptions connected to the
+// goal through shared constants (two rounds, heap and frontier constants do not propagate) are kept. `unsat`
+// of the slice implies `unsat` of the full query; nothing else is concluded from it.
+func (ex *Exec) buildSliced(o *Obligation) string {
+	return ex.buildQueryFull(o, nil, false, true)
+}
+
 func (ex *Exec) buildQueryOpt(o *Obligation, modelTerms []*smt.Term, linearize bool) string {
+	return ex.buildQueryFull(o, modelTerms, linearize, false)
+}
+
+func hubSymbol(s string) bool {
+	return strings.HasPrefix(s, "H0_") || strings.HasPrefix(s, "v_H_") || strings.HasPrefix(s, "brk") || strings.HasPrefix(s, "v_brk") || s == "iface_nil"
+}
+
+func (ex *Exec) buildQueryFull(o *Obligation, modelTerms []*smt.Term, linearize bool, slice bool) string {
 	c := ex.W.C
 	var asserts []*smt.Term
-	asserts = append(asserts, ex.assumes[:o.NAssume]...)
-	asserts = append(asserts, o.Guard)
+	if slice {
+		rel := map[string]bool{}
+		smt.Symbols(o.Goal, rel, map[int]bool{})
+		for s := range rel {
+			if hubSymbol(s) {
+				delete(rel, s)
+			}
+		}
+		picked := map[int]bool{}
+		for round := 0; round < 2; round++ {
+			add := map[string]bool{}
+			for i, a := range ex.assumes[:o.NAssume] {
+				if picked[i] {
+					continue
+				}
+				syms := map[string]bool{}
+				smt.Symbols(a, syms, map[int]bool{})
+				hit := false
+				for s := range syms {
+					if rel[s] {
+						hit = true
+						break
+					}
+				}
+				if hit {
+					picked[i] = true
+					for s := range syms {
+						if !hubSymbol(s) {
+							add[s] = true
+						}
+					}
+				}
+			}
+			for s := range add {
+				rel[s] = true
+			}
+		}
+		for i, a := range ex.assumes[:o.NAssume] {
+			if picked[i] {
+				asserts = append(asserts, a)
+			}
+		}
+	} else {
+		asserts = append(asserts, ex.assumes[:o.NAssume]...)
+		asserts = append(asserts, o.Guard)
+	}
 	var sks []*smt.Term
 	if !o.ExpectSat {
 		// universally quantified goals are skolemised here rather than by the solver, so that the
@@ -162,13 +221,24 @@ func Solve(script string, timeoutS int, order []int) *SolveResult {
 }
 
 func Solve2(script, lin string, timeoutS int, order []int) *SolveResult {
+	first := Solve2first(script, lin, order)
+	if first.Status == "unsat" || first.Status == "sat" {
+		return first
+	}
+	rest := Solve2race(script, lin, timeoutS, order)
+	rest.Tried = append(first.Tried, rest.Tried...)
+	rest.Time += first.Time
+	if rest.Output == "" {
+		rest.Output = first.Output
+	}
+	return rest
+}
+
+// Solve2first: the primary solver gets one second on the exact script and one on the linearised one.
+func Solve2first(script, lin string, order []int) *SolveResult {
 	res := &SolveResult{Status: "unknown"}
 	t0 := time.Now()
-	quick := 1
-	if timeoutS < quick {
-		quick = timeoutS
-	}
-	st, out, secs := runSolver(solvers[order[0]], script, quick)
+	st, out, secs := runSolver(solvers[order[0]], script, 1)
 	res.Tried = append(res.Tried, fmt.Sprintf("%s:%s:%.2fs", solvers[order[0]].name, st, secs))
 	if st == "unsat" || st == "sat" {
 		res.Status, res.Solver, res.Output, res.Time = st, solvers[order[0]].name, out, time.Since(t0).Seconds()
@@ -178,13 +248,21 @@ func Solve2(script, lin string, timeoutS int, order []int) *SolveResult {
 		res.Output = out
 	}
 	if lin != "" {
-		st, out, secs := runSolver(solvers[order[0]], lin, quick)
+		st, out, secs := runSolver(solvers[order[0]], lin, 1)
 		res.Tried = append(res.Tried, fmt.Sprintf("%s(lin):%s:%.2fs", solvers[order[0]].name, st, secs))
 		if st == "unsat" {
 			res.Status, res.Solver, res.Output, res.Time, res.Linearized = st, solvers[order[0]].name+"(lin)", out, time.Since(t0).Seconds(), true
 			return res
 		}
 	}
+	res.Time = time.Since(t0).Seconds()
+	return res
+}
+
+// Solve2race: all solvers in `order` on the exact and the linearised script, first definite answer wins.
+func Solve2race(script, lin string, timeoutS int, order []int) *SolveResult {
+	res := &SolveResult{Status: "unknown"}
+	t0 := time.Now()
 	type ans struct {
 		idx     int
 		lin     bool
@@ -420,6 +498,15 @@ func (ex *Exec) goalConjuncts(g *smt.Term) []*smt.Term {
 		if t.Kind == smt.KApp && t.Op == "and" && depth < 4 {
 			for _, a := range t.Args {
 				rec(a, depth+1)
+			}
+			return
+		}
+		if t.Kind == smt.KApp && t.Op == "=" && len(t.Args) == 2 && depth < 4 && t.Args[0].Sort.IsBV() && t.Args[0].Sort.BVWidth() > 1 && t.Args[0].Sort.BVWidth() <= 16 {
+			// an equation between bit-vectors is proved bit by bit (each bit usually depends on few branches)
+			w := t.Args[0].Sort.BVWidth()
+			for k := 0; k < w; k++ {
+				ext := fmt.Sprintf("(_ extract %d %d)", k, k)
+				out = append(out, c.Eq(c.App(ext, smt.BVSort(1), t.Args[0]), c.App(ext, smt.BVSort(1), t.Args[1])))
 			}
 			return
 		}
